@@ -21,10 +21,27 @@ pub fn verif_dir() -> String {
     std::env::var("PDS_VERIF_DIR").unwrap_or_else(|_| "/verif".to_string())
 }
 
-#[cfg(debug_assertions)]
-pub const PROFILE: &str = "mondbg";
-#[cfg(not(debug_assertions))]
-pub const PROFILE: &str = "monrel";
+/// "mondbg" (debug assertions on), "monrel" (release + overflow checks) or "monfast" (plain release).
+/// Overflow checking is detected at run time: `cfg(overflow_checks)` is not available on stable.
+pub static PROFILE: std::sync::LazyLock<&'static str> = std::sync::LazyLock::new(|| {
+    if cfg!(debug_assertions) {
+        "mondbg"
+    } else {
+        let hook = std::panic::take_hook();
+        std::panic::set_hook(Box::new(|_| {}));
+        let traps = std::panic::catch_unwind(|| {
+            let x: u8 = std::hint::black_box(255);
+            std::hint::black_box(x + std::hint::black_box(1))
+        })
+        .is_err();
+        std::panic::set_hook(hook);
+        if traps {
+            "monrel"
+        } else {
+            "monfast"
+        }
+    }
+});
 
 fn usage() -> ! {
     eprintln!("usage: pdsmon check|sub <ID> [--tier quick|thorough] [--seed N] [--threads N] [--only STR] | replay <file> | mem ...");
@@ -92,7 +109,7 @@ fn parse_ctx(args: &[String]) -> Ctx {
         id,
         tier,
         seed,
-        profile: PROFILE,
+        profile: *PROFILE,
         threads,
         only,
         only_item,
@@ -159,9 +176,12 @@ fn watchdog(ctx: &Ctx) {
     });
 }
 
-/// Run the mondbg binary for the debug-assertion clauses and return its report.
-pub fn run_dbg_sub(ctx: &Ctx) -> Result<Report, String> {
-    let exe = format!("{}/target/mondbg/pdsmon", verif_dir());
+/// the sub-runs of a property with `dbg_part`: debug assertions on, and plain release
+pub const SUB_PROFILES: [&str; 2] = ["mondbg", "monfast"];
+
+/// Run another profile's binary on the reduced workload and return its report.
+pub fn run_sub(ctx: &Ctx, profile: &str) -> Result<Report, String> {
+    let exe = format!("{}/target/{}/pdsmon", verif_dir(), profile);
     if !std::path::Path::new(&exe).exists() {
         return Err(format!("{} not built", exe));
     }
@@ -183,7 +203,8 @@ pub fn run_dbg_sub(ctx: &Ctx) -> Result<Report, String> {
     let out = cmd.output().map_err(|e| format!("spawn {}: {}", exe, e))?;
     if !out.status.success() {
         return Err(format!(
-            "mondbg sub exited with {:?}: {}",
+            "{} sub exited with {:?}: {}",
+            profile,
             out.status.code(),
             String::from_utf8_lossy(&out.stderr)
                 .chars()
@@ -196,7 +217,7 @@ pub fn run_dbg_sub(ctx: &Ctx) -> Result<Report, String> {
         .lines()
         .rev()
         .find(|l| l.starts_with("REPORT "))
-        .ok_or("no REPORT line from mondbg sub")?;
+        .ok_or_else(|| format!("no REPORT line from {} sub", profile))?;
     serde_json::from_str::<Report>(&line[7..]).map_err(|e| format!("bad REPORT json: {}", e))
 }
 
@@ -219,23 +240,24 @@ fn main() {
             let mut rep = (p.run)(&ctx);
             infra::drain_escaped_panics(&ctx.id, &mut rep);
             if p.dbg_part && !ctx.is_dbg() {
-                match run_dbg_sub(&ctx) {
-                    Ok(mut r) => {
-                        // keep dbg counters apart
-                        let cs: Vec<(String, u64)> = r.counters.drain_filter_compat();
-                        for (k, v) in cs {
-                            r.counters.insert(format!("mondbg/{}", k), v);
+                for prof in SUB_PROFILES {
+                    match run_sub(&ctx, prof) {
+                        Ok(mut r) => {
+                            // keep the sub-run's counters apart
+                            let cs: Vec<(String, u64)> = r.counters.drain_filter_compat();
+                            for (k, v) in cs {
+                                r.counters.insert(format!("{}/{}", prof, k), v);
+                            }
+                            let ms: Vec<(String, f64)> = r.maxima.iter().map(|(k, v)| (k.clone(), *v)).collect();
+                            r.maxima.clear();
+                            for (k, v) in ms {
+                                r.maxima.insert(format!("{}/{}", prof, k), v);
+                            }
+                            r.extra.clear();
+                            rep.merge(r);
                         }
-                        let ms: Vec<(String, f64)> =
-                            r.maxima.iter().map(|(k, v)| (k.clone(), *v)).collect();
-                        r.maxima.clear();
-                        for (k, v) in ms {
-                            r.maxima.insert(format!("mondbg/{}", k), v);
-                        }
-                        r.extra.clear();
-                        rep.merge(r);
+                        Err(e) => rep.inconclusive.push(format!("{} part: {}", prof, e)),
                     }
-                    Err(e) => rep.inconclusive.push(format!("mondbg part: {}", e)),
                 }
             }
             let fin = infra::finish(&ctx, &rep, p.rule, p.assumptions, start, &verif_dir());
